@@ -373,6 +373,21 @@ def divide_denominator(sys, v, pj):
         return None
 
 
+def period_arg(r):
+    """The period of a top-level request as the caller passes it: a Period object, or (for
+    about half of the requests, chosen from the request itself) its text form when that
+    text denotes the same period - the public API accepts both."""
+    p = mk_period(r[2])
+    if (r[1] + r[2][1][1] + r[2][1][2]) % 2 == 0:
+        try:
+            text = str(p)
+            if periods.period(text) == p:
+                return text
+        except Exception:  # noqa: BLE001
+            pass
+    return p
+
+
 def do_request(sim, sys, switches, r):
     kind = r[0]
     if kind == "switch":
@@ -383,11 +398,11 @@ def do_request(sim, sys, switches, r):
         return None
     name = var_name(sys, r[1])
     if kind == "calc":
-        return ints(sim.calculate(name, mk_period(r[2])))
+        return ints(sim.calculate(name, period_arg(r)))
     if kind == "add":
-        return ints(sim.calculate_add(name, mk_period(r[2])))
+        return ints(sim.calculate_add(name, period_arg(r)))
     if kind == "div":
-        res = numpy.asarray(sim.calculate_divide(name, mk_period(r[2])), dtype=numpy.float64)
+        res = numpy.asarray(sim.calculate_divide(name, period_arg(r)), dtype=numpy.float64)
         den = divide_denominator(sys, r[1], r[2])
         if den is None:
             raise Inexact("no independent denominator")
